@@ -218,6 +218,45 @@ def diamond_chain(rng, two_windows=False):
     return edges, len(set(kinds)) + 1
 
 
+# instances on which the decomposition found with the guessed weights (edge flow values) is LARGER than the minimum
+GW_DAG_ROUTES = [["s", "a", "d", "f", "t"], ["s", "a", "c", "e", "t"], ["s", "b", "d", "e", "t"], ["s", "b", "d", "f", "t"]]
+GW_CYC_ROUTES = [["s", "a", "c", "e", "t"], ["s", "b", "c", "f", "a", "c", "f", "t"], ["s", "a", "d", "f", "a", "c", "f", "t"]]
+
+
+def superpose(rng, routes, weights):
+    names = sorted({v for r in routes for v in r}); new = ["q%d" % i for i in range(len(names))]; rng.shuffle(new)
+    ren = dict(zip(names, new)); fl = {}
+    for r, w in zip(routes, weights):
+        for e in zip(r, r[1:]):
+            fl[e] = fl.get(e, 0) + w
+    es = [[ren[u], ren[v], f] for (u, v), f in fl.items()]; rng.shuffle(es)
+    return es
+
+
+def gw_gap_instance(fp, tap, rng, cyc):
+    """Flow whose true decomposition needs a weight that is no edge value but a sum of edge values: the guessed-weights
+    model is feasible only with more routes than the minimum.  Checked on the implementation (natural run)."""
+    tap.reset()
+    for _ in range(12):
+        if cyc:
+            b = rng.choice([5, 6, 7]); edges = superpose(rng, GW_CYC_ROUTES, [3 * b + 2, b, 1])
+            m = fp.MinFlowDecompCycles(graph_of(edges), flow_attr="flow", weight_type=int,
+                                       optimization_options={"optimize_with_guessed_weights": True}, solver_options=dict(SO))
+        else:
+            a, b, c = rng.sample(range(1, 12), 3); edges = superpose(rng, GW_DAG_ROUTES, [a, b, c, a + 2 * b + c])
+            m = fp.MinFlowDecomp(graph_of(edges), flow_attr="flow", weight_type=int,
+                                 optimization_options={"optimize_with_guessed_weights": True}, solver_options=dict(SO))
+        if not m.solve():
+            continue
+        gwm = getattr(m, "_given_weights_model", None)
+        if gwm is None or not gwm.is_solved():
+            continue
+        g = len(gwm.get_solution(remove_empty_walks=True)["walks"]) if cyc else len(gwm.get_solution(remove_empty_paths=True)["paths"])
+        if g > m.get_objective_value():
+            return edges
+    return None
+
+
 def graph_of(edges, perturb=None):
     G = nx.DiGraph()
     for i, (u, v, f) in enumerate(edges):
@@ -558,6 +597,11 @@ def property_failures(spec, obs, nat):
             bad.append(("search left the interpreter with exit(0) instead of reporting not-solved", None, "exit"))
     else:
         bad.append(("solve() returned " + out, None, "post"))
+    # the time budget ran out during the search: whatever is returned must not be a larger answer than the natural one
+    if obs.get("over_after") is not None and out == "S" and nat is not None and nat["outcome"] == "S" \
+            and obs["k"] is not None and nat["k"] is not None and obs["k"] > nat["k"]:
+        bad.append(("the time budget ran out after invocation %d, yet solve() returned True with k=%s (natural answer %s)" % (
+            obs["over_after"], obs["k"], nat["k"]), obs["over_after"] - 1, "clock"))
     # an inconclusive status anywhere must give not-solved (main loop); in auxiliary models the answer must stay the minimum
     if spec.p2:
         for i, e in enumerate(log):
@@ -973,6 +1017,23 @@ def run(ctx):
                 sp = spec_mfd(fp, edges, opts); sp.known_min = kmin; sp.exhaust = False
                 sp.inp = {"edges": edges, "known_min": kmin}
                 run_spec(ctx, tap, sp, extend=0)
+        # guessed-weights route on instances whose guessed-weights optimum exceeds the minimum (DAG and cyclic, with clock)
+        for i in range(max(3, n // 5)):
+            rng = ctx.rng("mfdgw", i); set_route(i % 2 == 1)
+            edges = gw_gap_instance(fp, tap, rng, False)
+            if edges is None:
+                continue
+            gopts = [{"optimize_with_guessed_weights": True}, {"optimize_with_guessed_weights": True, "optimize_with_greedy": False},
+                     {"optimize_with_guessed_weights": True, "optimize_with_greedy": False, "use_min_gen_set_lowerbound": True}]
+            run_spec(ctx, tap, spec_mfd(fp, edges, gopts[i % 3]), extend=1)
+        for i in range(max(1, n // 16)):
+            rng = ctx.rng("mfdcgw", i); set_route((i + ctx.seed) % 2 == 1)
+            edges = gw_gap_instance(fp, tap, rng, True)
+            if edges is None:
+                continue
+            gopts = [{"optimize_with_guessed_weights": True}, {"optimize_with_guessed_weights": True, "use_min_gen_set_lowerbound": True}]
+            sp = spec_mfdc(fp, edges, gopts[(i + ctx.seed // 2) % 2], timed=True); sp.exhaust = False
+            run_spec(ctx, tap, sp, extend=0, timed=True)
         for i in range(max(1, n // 2)):
             rng = ctx.rng("mfdc", i)
             edges = flow_cyclic(rng)
